@@ -45,3 +45,37 @@ func TestMachineAndLog(t *testing.T) {
 		t.Fatalf("partial: %s", files["part0.html"])
 	}
 }
+
+func TestComponentsAndNewOps(t *testing.T) {
+	p := &prog{
+		Globals: []glob{{"G0", "A3"}, {"G1", "T"}, {"G2", "int"}},
+		LibVar:  "K0", ImportAs: "lib",
+		Macros: []macro{{Name: "L0", File: "lib", Ops: []op{{K: "read", V: "L:K0", ID: 1}, {K: "inc", V: "L:K0", ID: 2}}}},
+		Main: []op{
+			{K: "ptrw", V: "G0", F: "1", ID: 3},
+			{K: "tuple", Body: []op{{K: "write", V: "G0", F: "0", ID: 4}, {K: "write", V: "G1", F: "B", ID: 5}}},
+			{K: "inc", V: "G0", F: "2", ID: 6},
+			{K: "read", V: "G0", F: "0", ID: 7}, {K: "read", V: "G0", F: "1", ID: 8}, {K: "read", V: "G0", F: "2", ID: 9},
+			{K: "read", V: "G1", F: "A", ID: 10}, {K: "read", V: "G1", F: "B", ID: 11},
+			{K: "write", V: "G1", ID: 12}, {K: "read", V: "G1", F: "B", ID: 13},
+			{K: "call", Name: "L0"}, {K: "read", V: "L:K0", ID: 14},
+		},
+	}
+	m := newMachine(p, map[string]value{"G0": {N: 10}, "G1": {N: 20}})
+	m.run(p.Main)
+	want := []event{{7, "1004"}, {8, "1003"}, {9, "13"}, {10, "20"}, {11, "1005"}, {13, "0"}, {1, "77"}, {14, "78"}}
+	if !reflect.DeepEqual(m.events, want) {
+		t.Fatalf("events %v, want %v", m.events, want)
+	}
+	files := p.render()
+	wantRoot := `{% import lib "lib.html" %}{% q3 := &G0[1] %}{% *q3 = 1003 %}{% G0[0], G1.B = 1004, 1005 %}{% G0[2]++ %}r7:{{ G0[0] }};r8:{{ G0[1] }};r9:{{ G0[2] }};r10:{{ G1.A }};r11:{{ G1.B }};{% G1 = T{A: 1012} %}r13:{{ G1.B }};{{ lib.L0() }}r14:{{ lib.K0 }};`
+	if files["index.html"] != wantRoot {
+		t.Fatalf("render:\n%s\nwant\n%s", files["index.html"], wantRoot)
+	}
+	if files["lib.html"] != "{% var K0 = 77 %}\n{% macro L0 %}r1:{{ K0 }};{% K0++ %}{% end macro %}\n" {
+		t.Fatalf("lib: %q", files["lib.html"])
+	}
+	if g := mentionedGlobals(p); !reflect.DeepEqual(keysOf(g), []string{"G0", "G1"}) {
+		t.Fatalf("mentioned %v", keysOf(g))
+	}
+}
